@@ -204,6 +204,37 @@ Fixpoint on_clines (f : nat -> bool * list cc -> list viol) (n : nat) (ls : list
   | l :: r => f n l ++ on_clines f (S n) r
   end.
 
+Fixpoint lastc {A} (l : list A) : option A :=
+  match l with
+  | [] => None
+  | [c] => Some c
+  | _ :: t => lastc t
+  end.
+
+(* what L001, L002 and L003 name, on the classified lines of a text *)
+(* the line ends in a space or tab that is layout: code, or the tail of a -- comment *)
+Definition tblank (p : cc) : bool := is_blank (fst p) && ((snd p =? 0) || (snd p =? 3)).
+Definition ends_tblank (l : list cc) : Prop := exists p, lastc l = Some p /\ tblank p = true.
+(* indentation kind of a line: 0 none, 1 tabs only, 2 spaces only, 3 mixed (only code blanks are indentation) *)
+Definition lblank (p : cc) : bool := is_blank (fst p) && code0 p.
+Definition ikind (l : list cc) : N :=
+  match take_l lblank l with
+  | [] => 0
+  | lw => if existsb (fun p : ch * N => is_tab (fst p)) lw && existsb (fun p : ch * N => is_sp (fst p)) lw then 3
+          else if existsb (fun p : ch * N => is_tab (fst p)) lw then 1 else 2
+  end.
+(* the indentation style of the first purely indented line *)
+Fixpoint first_pure (ks : list N) : N :=
+  match ks with
+  | [] => 0
+  | k :: r => if (k =? 1) || (k =? 2) then k else first_pure r
+  end.
+Definition eff (first : N) (pre : list (bool * list cc)) : N :=
+  if first =? 0 then first_pure (map (fun fl => ikind (snd fl)) pre) else first.
+(* the defect L002 names: the line mixes tabs and spaces, or is purely indented in another style than the first such line *)
+Definition l002_defect (first : N) (pre : list (bool * list cc)) (l : list cc) : Prop :=
+  ikind l = 3 \/ ((ikind l = 1 \/ ikind l = 2) /\ eff first pre <> 0 /\ eff first pre <> ikind l).
+
 Section Lint.
   Variables is_letter is_digit is_space : N -> bool.
   Variable upper_ascii : N -> option N.
@@ -219,7 +250,6 @@ Section Lint.
   (* L001 trailing whitespace *)
 
   (* trailingBlankStart: a trailing space or tab is removable when it is code or the tail of a -- comment *)
-  Definition tblank (p : cc) : bool := is_blank (fst p) && ((snd p =? 0) || (snd p =? 3)).
   Definition l001_line (l : list cc) : list cc := trim_r tblank l.
   Definition l001_fix (t : list ch) : list ch := per_cline l001_line t.
   Definition l001_check_line (n : nat) (fl : bool * list cc) : list viol :=
@@ -231,7 +261,6 @@ Section Lint.
   (* L002 mixed indentation *)
 
   (* getLeadingWhitespace: the leading spaces and tabs that are code *)
-  Definition lblank (p : cc) : bool := is_blank (fst p) && code0 p.
   Definition leading_ws (l : list cc) : list cc := take_l lblank l.
   Definition tab4 (p : cc) : list cc := if is_tab (fst p) then [(spc, 0); (spc, 0); (spc, 0); (spc, 0)] else [p].
   Definition l002_line (l : list cc) : list cc := flat_map tab4 (leading_ws l) ++ trim_l lblank l.
@@ -499,13 +528,6 @@ Definition wfc (c : ch) : Prop :=
   (cp c < 128 -> valid c = true).
 Definition wft (t : list ch) : Prop := forall c, In c t -> wfc c.
 
-Fixpoint lastc {A} (l : list A) : option A :=
-  match l with
-  | [] => None
-  | [c] => Some c
-  | _ :: t => lastc t
-  end.
-
 (* byte level: a text made of ASCII bytes, and a rewriter seen as a function on bytes *)
 Definition ascii_bytes (s : list N) : bool := forallb (fun b => b <? 128) s.
 Definition onbytes (f : list ch -> list ch) (s : list N) : list N := encode (f (decode s)).
@@ -513,6 +535,13 @@ Definition onbytes (f : list ch -> list ch) (s : list N) : list N := encode (f (
 Section Spec.
   Variable is_space : N -> bool.
   Variable upper_ascii : N -> option N.
+
+  (* number of consecutive blank lines of code from line i (0-based) on *)
+  Definition run_from (ls : list (bool * list cc)) (i : nat) : nat := length (take_l (cblank is_space) (skipn i ls)).
+  (* line i is a blank line of code and is the first of its run (cnt = blank lines pending before the list) *)
+  Definition startsG (cnt : nat) (ls : list (bool * list cc)) (i : nat) : Prop :=
+    (exists l, nth_error ls i = Some l /\ cblank is_space l = true) /\
+    match i with O => cnt = 0%nat | S j => exists p, nth_error ls j = Some p /\ cblank is_space p = false end.
 
   (* whitespace: a Unicode space, a space or tab, or the newline *)
   Definition wsc (c : ch) : bool := spacec is_space c || is_blank c || is_nl c.
